@@ -11,17 +11,28 @@
    returns (convergence of the QL iteration), and the effect of rounding - the floating-point run is
    still decided per run by the validator `check_evd_sym` (C02_evd_sym_validated_partial).
 
-   General clause: translation validation with supporting proofs.  elmhes + eltran are modelled and
-   proved (A Z = Z H, H upper Hessenberg, Z invertible: theorems C02_elmhes_...); balance/balbak, `sort` and the
-   2x2 formulas of hqr2 as before; hqr2's QR sweeps and back-substitution are NOT modelled (too
-   long, not attempted): for them the property is decided per run by `check_evd_gen`
-   (C02_evd_gen_validated_partial). *)
+   General clause: PARTIAL CORRECTNESS THEOREM in exact arithmetic as well.  balance, elmhes, eltran,
+   hqr2 (QR sweeps with exceptional shifts and deflation; back-substitution; final product), balbak and
+   `sort` are all modelled; the composed model evd_gen_model is bit-exact against evd(false) end to end.
+   Proved for every order and every matrix: balance is a diagonal similarity (C02_balance_similar);
+   A Z = Z H for elmhes/eltran (theorems C02_elmhes_...); every Francis sweep is an orthogonal
+   similarity and IF hqr2's first half returns THEN H is quasi-triangular with the blocks recorded in
+   (d, e) (C02_hqr2_sweeps_partial_correctness); the back-substitution gives, for every real
+   eigenvalue, a non-zero eigenvector, the overflow-guard rescaling being harmless because it scales the
+   whole vector (theorems C02_hqr2_real_... and C02_hqr2_overflow_guard...); IF the composed model returns
+   THEN the general clause holds exactly (C02_evd_gen_partial_correctness).  NOT proved: convergence,
+   rounding, the values of the columns of complex eigenvalues; the floating-point run is still decided per
+   run by `check_evd_gen` (C02_evd_gen_validated_partial). *)
 From Coq Require Import List Arith Bool Permutation Reals Floats Lia Lra.
 From SC Require Import Base.Num C02.Model C02.Validator C02.ProofsSort C02.ProofsSpec C02.ProofsValid.
 From SC Require Import C02.FunMat C02.ModelTred2 C02.ProofsHouse C02.ProofsTred2Step C02.ProofsTred2.
 From SC Require Import C02.ModelTql2 C02.ProofsTql2Rot C02.ProofsTql2Sweep C02.ProofsTql2 C02.ProofsTql2Example.
 From SC Require Import C02.ModelSymEvd C02.ProofsSymEvd.
 From SC Require Import C02.ModelHess C02.ProofsHessAlg C02.ProofsHessStep C02.ProofsHess C02.ProofsHessGhost.
+From SC Require Import C02.ModelHqr2Spec C02.ProofsConj C02.ProofsQtri C02.ProofsBalance.
+From SC Require Import C02.ModelHqr2Sweep C02.ProofsHqr2SweepJ C02.ProofsHqr2SweepLoop C02.ProofsHqr2SweepSearch C02.ProofsHqr2SweepFinal.
+From SC Require Import C02.ModelHqr2 C02.ModelGenEvd C02.ProofsGenAssembly C02.ProofsGenEvd C02.ProofsGenEvdVec C02.ProofsGenEvdFinal.
+From SC Require Import C02.ModelHqr2Vec C02.ProofsHqr2VecSum C02.ProofsHqr2VecReal C02.ProofsHqr2VecFrame C02.ProofsHqr2Vec C02.ProofsHqr2VecExample.
 Import ListNotations.
 
 (* ---------------- evd.rs `sort` (end of evd(false)) ---------------- *)
@@ -272,12 +283,200 @@ Theorem C02_elmhes_reduced_matrix : forall n (A : mat), 1 <= n ->
   (forall k, gperm k = perm k).
 Proof. exact elmhes_ghost_spec. Qed.
 
-(* The full statement of the general clause, which is NOT proved: it quantifies over the solver's
-   output for every input; `solve_gen` stands for evd(false) (balance+elmhes+eltran+hqr2+balbak+sort);
-   hqr2's QR sweeps and back-substitution are not modelled (not a target: too long); u is the unit
-   roundoff and c the constant of the rounding-error bound.  Missing: a model and the partial
-   correctness of hqr2, convergence of the QR sweeps, and a backward error analysis. *)
-Definition C02_evd_gen_full_statement
+(* ---------------- balance: the returned matrix is a diagonal similarity of the input ---------------- *)
+(* whatever the comparisons decide: B = S^-1 A S, S = diag(scale), every scale_i <> 0 - the hypothesis of
+   C02_balbak_correct / C02_balanced_coordinates, now proved about the model's output *)
+Theorem C02_balance_similar : forall t095 sweeps fuel (A B : list (list R)) (s : list R),
+  square (length A) A ->
+  balance ROps t095 sweeps fuel A = Some (B, s) ->
+  similar_by (length A) s A B.
+Proof. exact balance_similar. Qed.
+
+(* ---------------- the spectrum recorded by hqr2's first half ---------------- *)
+(* `qtri n H d e` (ModelHqr2Spec.v): H is quasi-upper-triangular with 1x1 and 2x2 diagonal blocks as
+   flagged by e (e_i = 0: H_ii = d_i real; e_i > 0 = -e_{i+1}: d_i +- i e_i are the eigenvalues of the
+   2x2 block).  Then the recorded values are conjugate-paired, sum d = trace H, sum (d^2 - e^2) = trace H^2. *)
+Theorem C02_qtri_spectrum : forall n (H : mat) (d e : nat -> R), qtri n H d e ->
+  ConjPaired (combine (vlist n d) (vlist n e)) /\
+  rsum n d = mtrace n H /\
+  rsum n (fun i => (d i * d i - e i * e i)%R) = mtrace n (mmul n H H).
+Proof.
+  intros n H d e HQ. split; [exact (qtri_conj_paired n H d e HQ)|].
+  split; [exact (qtri_trace n H d e HQ)|exact (qtri_trace2 n H d e HQ)].
+Qed.
+
+(* a similarity by an invertible Z preserves the trace (and, applied to A^2 and H^2, the trace of squares) *)
+Theorem C02_similarity_preserves_trace : forall n (A Z W H : mat),
+  meq n (mmul n A Z) (mmul n Z H) -> meq n (mmul n W Z) mid -> meq n (mmul n Z W) mid ->
+  mtrace n H = mtrace n A /\ mtrace n (mmul n H H) = mtrace n (mmul n A A).
+Proof.
+  intros n A Z W H Hs H1 H2. split; [exact (similar_mtrace n A Z W H Hs H1 H2)|].
+  exact (similar_mtrace n _ Z W _ (similar_square n A Z H Hs) H1 H2).
+Qed.
+
+(* conjugate pairing does not depend on the order (so `sort` cannot break it) *)
+Theorem C02_conj_paired_perm_invariant : forall l l' : list (R * R),
+  Permutation l l' -> ConjPaired l -> ConjPaired l'.
+Proof. exact ConjPaired_perm. Qed.
+
+(* ---------------- hqr2, first half: one Francis double-shift sweep is an orthogonal similarity ---------------- *)
+(* The loop `for k in m..nn` of 3x3 (last: 2x2) Householder steps, started at m with ANY p0, q0, r0 (any
+   shift, ordinary or exceptional), on a working array whose window is clean (what the zeroing loop
+   before it establishes) and with A[m][m-1] = 0 (m = l): there is G, orthogonal on both sides and
+   commuting with the indicator of the active block 0..=nn (so the accumulated exceptional shift t I_active
+   carries through), with  (uhess A0) G = G (uhess A'),  V' = V0 G,  rows below nn untouched.
+   uhess = the upper Hessenberg part: the entries the steps leave below the sub-diagonal are stale
+   storage, never read again. *)
+Theorem C02_hqr2_sweep_orthogonal_similarity : forall (n nn m : nat) (p0 q0 r0 : R) (A0 V0 : mat),
+  S (S m) <= nn -> nn < n ->
+  (forall c, c < n -> S c = m -> A0 m c = 0%R) ->
+  (forall r c, r < n -> c < n -> S c < r -> r <= nn -> r <= c + 3 -> m <= c -> A0 r c = 0%R) ->
+  (S nn < n -> A0 (S nn) nn = 0%R) ->
+  forall A' V' : nat -> nat -> R,
+  forn m (nn - m) (k_step ROps Rcopysign n m m nn p0 q0 r0) (A0, V0) = (A', V') ->
+  exists G : mat,
+    orth2 n G /\ Jcomm n nn G /\
+    meq n (mmul n (uhess A0) G) (mmul n G (uhess A')) /\
+    (forall i j, i < n -> j < n -> V' i j = mmul n V0 G i j) /\
+    (forall i j, i < n -> j < n -> nn < i -> A' i j = A0 i j).
+Proof. exact k_loop_sim. Qed.
+
+(* with eps = 0 ('negligible' = exactly zero) and non-zero sub-diagonal entries inside the active block
+   (what the l-search guarantees) the search for the start of the sweep always ends at m = l: the branch
+   `k == m, l != m` (sign flip) is dead in exact arithmetic, and no division by zero occurs *)
+Theorem C02_hqr2_sweep_starts_at_l : forall (A : mat) (x y w : R) (l fuel m : nat),
+  m = l + fuel ->
+  (forall i, l <= i -> i <= S m -> A (S i) i <> 0%R) ->
+  fst (m_search ROps 0%R A x y w fuel m) = l.
+Proof. exact m_search_l. Qed.
+
+(* The whole first half of hqr2 (l-search, exceptional shifts at its = 10 / 20, sweeps, deflation of one
+   root / a complex pair / a real pair by a plane rotation) over R with eps := 0 (an entry is negligible
+   only when exactly zero): IF it returns THEN H = uhess A is quasi-upper-triangular with the 1x1 / 2x2
+   blocks recorded in (d, e) (`qtri`), and there is Q, orthogonal on both sides, with V = V0 Q and
+   (uhess A0) Q = Q H.  No ghost flag is needed: no division by zero can occur in exact arithmetic.
+   Convergence (that it returns; the code panics after 30 sweeps without deflation) is NOT proved. *)
+Theorem C02_hqr2_sweeps_partial_correctness : forall n (A0 V0 A V : mat) (d e : nat -> R) (an : R),
+  hqr2_sweeps ROps Rcopysign 0%R n A0 V0 (fun _ => 0%R) (fun _ => 0%R) = Some (A, V, d, e, an) ->
+  qtri n (uhess A) d e /\
+  exists Q, morth n Q /\ meq n (mmul n Q (mtr Q)) mid /\ meq n V (mmul n V0 Q) /\
+            meq n (mmul n (uhess A0) Q) (mmul n Q (uhess A)).
+Proof. exact hqr2_sweeps_partial_correct. Qed.
+
+(* ---------------- hqr2, second half: back-substitution for REAL eigenvalues ---------------- *)
+(* For ARBITRARY eps (so the overflow guard may fire): if H = uhess A is quasi-triangular as recorded in
+   (d, e), anorm <> 0 and the ghost flag is true (the perturbation `if t == 0 { t = eps * anorm }` was
+   never taken in a real column, i.e. no division by zero in exact arithmetic), then for every real
+   eigenvalue d[nn] the routine leaves in column nn of the working array a vector x with x[nn] <> 0,
+   zero below nn, (H - d[nn] I) x = 0, and column nn of the returned V is V x. *)
+Theorem C02_hqr2_real_eigenvector_column : forall eps n anorm (A V : mat) (d e : nat -> R) nn,
+  qtri n (uhess A) d e -> anorm <> 0%R ->
+  hqr2_vectors_ok ROps eps n anorm A V d e = true ->
+  nn < n -> e nn = 0%R ->
+  let A' := fst (hqr2_vectors ROps eps n anorm A V d e) in
+  let V' := snd (hqr2_vectors ROps eps n anorm A V d e) in
+  exists x : nat -> R,
+    x nn <> 0%R /\
+    (forall k, nn < k -> x k = 0%R) /\
+    (forall k, k <= nn -> x k = A' k nn) /\
+    (forall i, i < n -> rsum n (fun j => (uhess A i j * x j)%R) = (d nn * x i)%R) /\
+    (forall i, i < n -> V' i nn = rsum n (fun k => (V i k * x k)%R)).
+Proof. exact hqr2_vectors_real_column. Qed.
+
+(* hence, when B V = V H, that column is an eigenvector of B, non-zero when V has a left inverse *)
+Theorem C02_hqr2_real_eigenvector_of_similar : forall eps n anorm (A V B : mat) (d e : nat -> R) nn,
+  qtri n (uhess A) d e -> anorm <> 0%R ->
+  hqr2_vectors_ok ROps eps n anorm A V d e = true ->
+  nn < n -> e nn = 0%R ->
+  meq n (mmul n B V) (mmul n V (uhess A)) ->
+  let V' := snd (hqr2_vectors ROps eps n anorm A V d e) in
+  forall i, i < n -> rsum n (fun k => (B i k * V' k nn)%R) = (d nn * V' i nn)%R.
+Proof. exact hqr2_vectors_real_eigvec. Qed.
+
+Theorem C02_hqr2_real_eigenvector_nonzero : forall eps n anorm (A V W : mat) (d e : nat -> R) nn,
+  qtri n (uhess A) d e -> anorm <> 0%R ->
+  hqr2_vectors_ok ROps eps n anorm A V d e = true ->
+  nn < n -> e nn = 0%R ->
+  meq n (mmul n W V) mid ->
+  let V' := snd (hqr2_vectors ROps eps n anorm A V d e) in
+  exists i, i < n /\ V' i nn <> 0%R.
+Proof. exact hqr2_vectors_real_nonzero. Qed.
+
+(* The overflow guard `if eps * t * t > 1 { for j in i..=nn { A[j][nn] /= t } }`: it divides the WHOLE
+   part of the vector computed so far (rows m..=nn of column nn, the leading A[nn][nn] included) by
+   t <> 0.  `Good H d nn A0 m Ac` says: only rows m..nn of column nn differ from the entry array A0,
+   Ac[nn][nn] <> 0, and the homogeneous equations of rows m..nn-1 hold for column nn; it is preserved -
+   because the equations are homogeneous.  (Rescaling only a part, or by a different factor per entry,
+   would break `Eqs`.)  The guarded form, with t = |A[k][nn]| <> 0 following from 1 < eps*t*t: *)
+Theorem C02_hqr2_overflow_guard_scales_whole_vector : forall n (H : mat) (d : nat -> R) nn,
+  nn < n -> forall (A0 : mat) m (Ac : mat) (t : R),
+  Good H d nn A0 m Ac -> t <> 0%R ->
+  Good H d nn A0 m (vec_scale_col ROps Ac m nn nn t).
+Proof. exact good_scale. Qed.
+
+Theorem C02_hqr2_overflow_guard : forall n (eps : R) (H : mat) (d : nat -> R) nn,
+  nn < n -> forall (A0 : mat) k (A1 : mat),
+  Good H d nn A0 k A1 ->
+  Good H d nn A0 k
+    (if Rltb 1 (eps * Rabs (A1 k nn) * Rabs (A1 k nn))
+     then vec_scale_col ROps A1 k nn nn (Rabs (A1 k nn)) else A1).
+Proof. exact good_guard. Qed.
+
+(* a complex-pair iteration writes only columns nn-1, nn of the working array and leaves the flag alone *)
+Theorem C02_hqr2_complex_iteration_frame : forall (eps anorm p q : R) (d e : nat -> R) nn (st : vst),
+  vok (vec_cplx ROps eps anorm p q d e nn st) = vok st /\
+  (forall r c, c <> nn - 1 -> c <> nn -> vA (vec_cplx ROps eps anorm p q d e nn st) r c = vA st r c).
+Proof. exact vec_cplx_frame. Qed.
+
+(* the ghost flag holds whenever the real eigenvalues are pairwise distinct *)
+Theorem C02_hqr2_flag_distinct_eigenvalues : forall eps n anorm (A V : mat) (d e : nat -> R),
+  qtri n (uhess A) d e ->
+  (forall i nn, i < nn -> nn < n -> e i = 0%R -> e nn = 0%R -> d i <> d nn) ->
+  hqr2_vectors_ok ROps eps n anorm A V d e = true.
+Proof. exact hqr2_vectors_ok_distinct. Qed.
+
+(* ---------------- the general clause as a partial-correctness theorem ---------------- *)
+(* evd_gen_model = balance ; elmhes ; eltran ; hqr2 (sweeps, back-substitution) ; balbak ; sort
+   (ModelGenEvd.v; bit-exact against evd(false) end to end), over R with eps := 0.
+   For every order and EVERY square matrix A: IF the model returns, with the ghost flag true (no division
+   by zero in the back-substitution of a real eigenvalue: the perturbation branch was not taken - it holds
+   e.g. when the real eigenvalues are pairwise distinct, C02_hqr2_flag_distinct_eigenvalues), THEN the
+   general clause holds EXACTLY (tolerances 0): the values d + i e are conjugate-paired, sum d = trace A,
+   sum (d^2 - e^2) = trace A^2, and every real d_j has a non-zero column v_j with A v_j = d_j v_j.
+   (Replaces the former Definition C02_evd_gen_full_statement.) *)
+Theorem C02_evd_gen_partial_correctness :
+  forall (t095 : R) (sweeps fuel : nat) (A : list (list R)) V d e,
+  let n := length A in
+  square n A ->
+  evd_gen_model ROps Rcopysign t095 0%R sweeps fuel A = Some (V, d, e, true) ->
+  evd_gen_ok 0 0 0 A V d e.
+Proof. exact evd_gen_partial_correct. Qed.
+
+(* the last steps alone (no hypothesis about hqr2's internals): from 'B = S^-1 A S is similar, by an
+   invertible Z, to a quasi-triangular H recorded in (d, e), and every real d_j has a non-zero eigenvector
+   column of B' to the general clause for what balbak and sort return *)
+Theorem C02_evd_gen_assembly : forall (A B : list (list R)) (s : list R) (H Z W V3 : mat) (d e : nat -> R)
+    (d' e' : list R) (C : list (list R)),
+  let n := length A in
+  similar_by n s A B ->
+  qtri n H d e ->
+  meq n (mmul n (mfun 0%R B) Z) (mmul n Z H) -> meq n (mmul n W Z) mid -> meq n (mmul n Z W) mid ->
+  (forall j, j < n -> e j = 0%R ->
+     (forall i, i < n -> rsum n (fun k => (mfun 0%R B i k * V3 k j)%R) = (d j * V3 i j)%R) /\
+     (exists i, i < n /\ V3 i j <> 0%R)) ->
+  evd_sort ROps (vlist n d) (vlist n e) (transpose_rows 0%R n (balbak ROps (mrows n V3) s)) = (d', e', C) ->
+  evd_gen_ok 0 0 0 A (transpose_rows 0%R n C) d' e'.
+Proof. exact gen_clause_assembly. Qed.
+
+(* What is still NOT proved for the general clause, stated in full: total correctness of the
+   FLOATING-POINT routine.  `solve_gen` stands for evd(false) on binary64, u for the unit roundoff, c for
+   the constant of the rounding-error bound.  Missing: (1) convergence of the QR sweeps (the theorem above
+   assumes the model returns; the code panics after 30 sweeps without deflation - a known finding on
+   defective matrices); (2) a backward error analysis (the theorem is about exact arithmetic with
+   eps = 0 and assumes the ghost flag); (3) the columns of V that belong to complex eigenvalues: modelled and
+   validated bit for bit, but nothing is proved about their values (the property does not constrain them).
+   Per run the floating-point result is decided by the validator (C02_evd_gen_validated_partial). *)
+Definition C02_evd_gen_float_total_statement
   (solve_gen : list (list float) -> list float * list float * list (list float)) (c u : R) : Prop :=
   forall A, let '(d, e, V) := solve_gen A in
     evd_gen_ok (c * INR (length A) * u) (c * INR (length A) * u) (c * INR (length A) * u)
@@ -392,3 +591,54 @@ Example C02_elmhes_instance :
   (exists W, meq 3 (mmul 3 Z W) mid /\ meq 3 (mmul 3 W Z) mid) /\
   perm 1 = 2.
 Proof. exact ex3_similarity. Qed.
+
+(* the rotation [[0,-1],[1,0]]: one complex 2x2 block with eigenvalues +-i, recorded as d = (0,0), e = (1,-1) *)
+Example C02_qtri_instance :
+  qtri 2 (mfun 0%R [[0; -1]; [1; 0]]%R) (vfun 0%R [0; 0]%R) (vfun 0%R [1; -1]%R).
+Proof.
+  unfold qtri. split; [|split; [|split; [|split]]].
+  - intros r c Hr Hc Hrc. lia.
+  - intros i Hi Hn. assert (i = 0) by lia. subst i. exfalso. apply Hn. cbn. lra.
+  - intros i Hi He. destruct i as [|[|i]]; [| |lia]; cbn in He; lra.
+  - intros i Hi He. destruct i as [|[|i]]; [| |lia].
+    + cbn. repeat split; try lia; lra.
+    + cbn in He. lra.
+  - intros i Hi He. destruct i as [|[|i]]; [| |lia].
+    + cbn in He. lra.
+    + exists 0. split; [reflexivity|cbn; lra].
+Qed.
+
+(* hqr2 back-substitution: H = [[0,1,5],[-1,0,7],[0,0,2]] (a complex 2x2 block ABOVE the real eigenvalue 2,
+   so the 2x2 solve is exercised), d = (0,0,2), e = (1,-1,0): qtri holds, the flag is true for every eps *)
+Example C02_hqr2_vectors_instance : forall eps anorm (V : mat),
+  qtri 3 (uhess exB) exBd exBe /\ hqr2_vectors_ok ROps eps 3 anorm exB V exBd exBe = true.
+Proof. intros eps anorm V. split; [exact exB_qtri|exact (exB_ok eps anorm V)]. Qed.
+
+(* hqr2's first half returns on an order-1 input (one root recorded immediately); sweeps with real
+   Francis steps are exercised by the bit-exact correspondence, over R they involve nested square roots *)
+Example C02_hqr2_sweeps_instance : exists A V d e anorm,
+  hqr2_sweeps ROps Rcopysign 0%R 1 (fun _ _ => 5%R) mid (fun _ => 0%R) (fun _ => 0%R) = Some (A, V, d, e, anorm) /\
+  d 0 = 5%R.
+Proof. exact hqr2_sweeps_example. Qed.
+
+(* the composed general model returns with the flag true (order 1) *)
+Example C02_evd_gen_instance : forall t095 : R, exists V d e,
+  evd_gen_model ROps Rcopysign t095 0%R 3 3 [[5%R]] = Some (V, d, e, true).
+Proof.
+  intros t095. unfold evd_gen_model. cbn [length].
+  assert (Eb : balance ROps t095 3 3 [[5%R]] = Some ([[5%R]], [1%R])).
+  { unfold balance. cbn [length repeat bal_loop seq fold_left bal_index bal_sums Nat.eqb].
+    cbn [ROps o0 o1]. unfold neqb. cbn [ROps oeqb o0].
+    replace (Reqb 0 0) with true by (symmetry; apply Reqb_true; reflexivity). cbn [negb andb]. reflexivity. }
+  rewrite Eb.
+  set (A1 := fst (elmhes ROps 1 (mfun (o0 ROps) [[5%R]]))).
+  set (Z := eltran ROps 1 A1 (snd (elmhes ROps 1 (mfun (o0 ROps) [[5%R]]))) (eye ROps)).
+  assert (Es : exists A V d e an,
+            hqr2_sweeps ROps Rcopysign 0%R 1 A1 Z (fun _ => o0 ROps) (fun _ => o0 ROps) = Some (A, V, d, e, an)).
+  { do 5 eexists. Timeout 60 lazy -[Rplus Rminus Rmult Rdiv Ropp Rabs IZR Rleb Reqb Rltb sqrt Rcopysign]. reflexivity. }
+  destruct Es as (A2 & V2 & d2 & e2 & an & Es).
+  destruct (hqr2_sweeps_partial_correct 1 A1 Z A2 V2 d2 e2 an Es) as [HQ _].
+  pose proof (hqr2_vectors_ok_distinct 0%R 1 an A2 V2 d2 e2 HQ ltac:(intros; lia)) as Hok.
+  unfold hqr2_model. cbn [ROps o0] in Es |- *. rewrite Es. unfold hqr2_vectors_ok in Hok. rewrite Hok.
+  destruct (evd_sort ROps _ _ _) as [[d' e'] C]. do 3 eexists. reflexivity.
+Qed.
